@@ -85,7 +85,53 @@ def plan(tier, seed):
 def minimums(tier):
     return {"dump.calls_checked": 3000, "dump.partitions_checked": 2500, "file.format_checks": 1500, "script.runs": 10,
             "workload.header_at_0": 30, "workload.no_headers": 100, "workload.six_headers": 50,
-            "workload.repeated_name": 100, "file.raw_text_column": 300, "file.beyond_64k_checks": 10}
+            "workload.repeated_name": 100, "file.raw_text_column": 300, "file.beyond_64k_checks": 10, "script.runs_with_own_tables": 10}
+
+
+def script_with_tables(ctx, prop, rng, root, n, ilog_only=False):
+    """The stand-alone formatter (python -m io_drawer.dump) given its own PTE table / trace string file with -d / -s: as an
+    absolute path, as a path relative to the current directory, and as a relative path that happens to be called like a
+    shipped file (mex_pte.h in the current directory is the USER's file).  Compared with the model on the written tables."""
+    import subprocess
+    for i in range(n):
+        which = rng.choice(["mex", "nimitz"])
+        table, strings = iogen.gen_table(rng, rng.choice([3, 8, 20])), iogen.gen_strings(rng)
+        wd = os.path.join(root, "script_cwd_%d" % i)
+        os.makedirs(wd, exist_ok=True)
+        style = rng.choice(["absolute", "relative", "relative-shipped-name", "relative-subdir"])
+        hname = {"relative-shipped-name": "%s_pte.h" % which}.get(style, "my_table_%d.h" % i)
+        sname = {"relative-shipped-name": "%sStringFile" % which}.get(style, "my_strings_%d" % i)
+        sub = "tables" if style == "relative-subdir" else ""
+        os.makedirs(os.path.join(wd, sub), exist_ok=True)
+        hdr, sf = os.path.join(wd, sub, hname), os.path.join(wd, sub, sname)
+        im.write_pte_table(hdr, table, rng, style=rng.randrange(4))
+        im.write_string_file(sf, strings, rng)
+        mt, ms = iogen.model_table(table), iogen.model_strings(strings)
+        d = iogen.gen_ilog(rng, table, rng.randrange(1, 12)) if ilog_only else iogen.gen_dump(rng, table, strings)
+        while not d or len(d) > 60000:
+            d = iogen.gen_dump(rng, table, strings)
+        with open(os.path.join(wd, "dump.txt"), "w") as f:
+            f.write("\n".join((im.render_bmc if i % 2 else im.render_old)(d)) + "\n")
+        harg = hdr if style == "absolute" else os.path.join(sub, hname)
+        sarg = sf if style == "absolute" else os.path.join(sub, sname)
+        argv = ["dump.txt", "-t", which, "-d", harg] + ([] if ilog_only and rng.random() < 0.5 else ["-s", sarg])
+        ctx.current = {"argv": argv, "cwd": "a directory holding the dump and the tables", "data": d[:600], "table": [list(t) for t in mt][:30]}
+        ctx.case("scriptd" + style + d.hex() + repr(mt), True)
+        p = subprocess.run([env.PY, "-m", "io_drawer.dump"] + argv, env=env.child_env(), cwd=wd, stdout=subprocess.PIPE,
+                           stderr=subprocess.PIPE, timeout=120)
+        ctx.count("script.runs_with_own_tables")
+        ctx.see("script.table_path_style", style)
+        got = p.stdout.decode("utf-8", "replace").split("\n")
+        if got and got[-1] == "":
+            got.pop()
+        want = im.dump_ref(d, mt, ms)        # (ILOG-only dumps have no trace region: the string file does not matter)
+        ok = p.returncode == 0 and got in want
+        if not ok:
+            ctx.violation("%s/script-own-tables/%s" % (prop, style), "python -m io_drawer.dump %s (run in the directory that holds these "
+                          "files) rc=%d printed %d lines that differ from the decode with the given table; stderr=%r first lines %r" %
+                          (" ".join(argv), p.returncode, len(got), p.stderr.decode("utf-8", "replace")[-200:], got[:4]), data=d[:600])
+        import shutil
+        shutil.rmtree(wd, ignore_errors=True)
 
 
 def drive_big(ctx, dump, rng, hdr, sf, table, strings, root):
@@ -145,7 +191,12 @@ def drive(ctx, dump, rng, hdr, sf, table, strings, root, tag, k):
         for fmt in ("bmc", "old"):
             render = im.render_bmc if fmt == "bmc" else im.render_old
             raw = rng.random() < 0.3
-            lines = render(d, lower=rng.random() < 0.3, strip=rng.random() < 0.3, raw=raw)
+            if fmt == "old" and rng.random() < 0.25:
+                lines = render(d, lower=rng.random() < 0.3, strip=rng.random() < 0.3, trim=rng.choice(["rstrip", "notext"]))
+                raw = False
+                ctx.count("file.old_format_trimmed_lines")
+            else:
+                lines = render(d, lower=rng.random() < 0.3, strip=rng.random() < 0.3, raw=raw)
             if raw and any(b in im.RAW_TEXT for b in d):
                 ctx.count("file.raw_text_column")
             if rng.random() < 0.4:
@@ -192,6 +243,7 @@ def run(spec, ctx):
             drive(ctx, dump, rng, hdr, sf, table, strings, root, spec["which"], i + 5)
         return
     # stand-alone script
+    script_with_tables(ctx, "C17", rng, root, spec["n"])
     for i in range(spec["n"]):
         which = rng.choice(["mex", "nimitz"])
         dt = MEX_DRAWER_TYPE if which == "mex" else NIMITZ_DRAWER_TYPE
